@@ -38,6 +38,18 @@ let () = register "mfdc" (fun () ->
   let ov = next_list next_bool in let sts = next_list next_raw in
   print_outcome (run_mfdc sk xc lb0 ne um nw gu gw ov sts))
 
+(* mfdscan: like mfd, then <nwin> windows (lb0 ne use_mgs nweights guessed gw <n> greedy* ), then sts *)
+let () = register "mfdscan" (fun () ->
+  let sk = next_bool () in let ex = next_bool () in let xc = next_bool () in let lb0 = next_nat () in let ne = next_nat () in
+  let um = next_bool () in let nw = next_nat () in let cuts = next_nat () in let gu = next_bool () in let gw = next_nat () in
+  let gr = next_list next_bool in
+  let ws = next_list (fun () ->
+    let l0 = next_nat () in let e = next_nat () in let m = next_bool () in let w = next_nat () in
+    let g = next_bool () in let gp = next_nat () in let grl = next_list next_bool in
+    ((((((l0, e), m), w), g), gp), grl)) in
+  let sts = next_list next_raw in
+  print_outcome (run_mfd_scan sk ex xc lb0 ne um nw cuts gu gw gr ws sts))
+
 (* fd2 <upper_excl> <lb> <ne> <guessed> <gw> <g0? g0> <n> greedy* <n> over* <n> sts*  : a later solve() on the same object *)
 let () = register "fd2" (fun () ->
   let xc = next_bool () in let lb = next_nat () in let ne = next_nat () in
